@@ -224,6 +224,9 @@ main(int argc, char **argv)
 		sl[0] = pv->s->id;
 		cc.suites = sl; cc.nsuites = 1; cc.vmin = cc.vmax = pv->version;
 		sc.keykind = tp_key_for_suite(pv->s, 0);
+		/* the receiver under attack uses each implementation set in turn (round-robin over pairs and rounds) */
+		cc.impl_set = sc.impl_set = (pi + round + (int)seed) % 4;
+		vf_distinct("impl_sets", "%04x %d", pv->s->id, cc.impl_set);
 		vf_bytes(&r, cc.seed, 32); vf_bytes(&r, sc.seed, 32);
 		snprintf(base_case, sizeof base_case, "seed=%lld pair=%d round=%d suite=%s(%04x) ver=%04x sender=%s layout=%d",
 			seed, pi, round, pv->s->name, pv->s->id, pv->version, sender_dir ? "server" : "client", layout);
